@@ -117,15 +117,14 @@ func (e *Encoder) writeMap(data interface{}) (int, error) {
 
 	if typ.Kind() == reflect.Map {
 		// -------> untyped map
-		keys := vv.MapKeys()
-		count = len(keys)
-		for i := 0; i < count; i++ {
-			k := keys[i]
-			_, err := e.WriteData(k.Interface())
+		// the entries are taken from an iterator: a NaN key cannot be looked up again
+		count = vv.Len()
+		for iter := vv.MapRange(); iter.Next(); {
+			_, err := e.WriteData(iter.Key().Interface())
 			if err != nil {
 				return 0, err
 			}
-			_, err = e.WriteData(vv.MapIndex(keys[i]).Interface())
+			_, err = e.WriteData(iter.Value().Interface())
 			if err != nil {
 				return 0, err
 			}
